@@ -143,7 +143,7 @@ class Run:
         return out, r
 
     # -------------------------------------------------------------- driver
-    def drive(self, cases, obs_name="obs.ndjson", nproc=None, case_timeout=120):
+    def drive(self, cases, obs_name="obs.ndjson", nproc=None, case_timeout=120, env=None):
         """run the real code on every case; returns the path of the observation file (same order)"""
         lines = [l for l in open(cases, encoding="utf-8").read().split("\n") if l.strip()]
         n = len(lines)
@@ -165,11 +165,11 @@ class Run:
             guard = 0
             while done < total:
                 guard += 1
-                if guard > 500:
+                if guard > 200 + total // 2:
                     raise Infra("driver keeps crashing (%d restarts)" % guard)
                 try:
                     p = subprocess.run([self.kdrive, "-in", cp, "-out", op, "-from", str(done)],
-                                       capture_output=True, text=True,
+                                       env=dict(os.environ, **(env or {})), capture_output=True, text=True, stdin=subprocess.DEVNULL,
                                        timeout=max(case_timeout, 2 * case_timeout))
                     rc, err = p.returncode, p.stderr
                     hung = False
@@ -179,7 +179,7 @@ class Run:
                 if rc == 0 and got == total:
                     done = got
                     break
-                if rc == 2:
+                if rc == 3:
                     raise Infra("kdrive infrastructure error: " + err[-2000:])
                 if got >= total:
                     raise Infra("kdrive exited %s after all cases: %s" % (rc, err[-2000:]))
@@ -210,17 +210,19 @@ class Run:
 
     def confirm_crash(self, case_line, case_timeout):
         """re-run one case alone; returns stderr text if it crashes/hangs again, else None"""
-        cp = self.path("one.cases")
-        op = self.path("one.obs")
+        import uuid
+        u = uuid.uuid4().hex
+        cp = self.path("one-%s.cases" % u)
+        op = self.path("one-%s.obs" % u)
         with open(cp, "w", encoding="utf-8") as f:
             f.write(case_line + "\n")
         if os.path.exists(op):
             os.remove(op)
         try:
-            p = subprocess.run([self.kdrive, "-in", cp, "-out", op], capture_output=True, text=True, timeout=case_timeout)
+            p = subprocess.run([self.kdrive, "-in", cp, "-out", op], capture_output=True, text=True, timeout=case_timeout, stdin=subprocess.DEVNULL)
         except subprocess.TimeoutExpired:
             return "hang: no result within %ss" % case_timeout
-        if p.returncode != 0 and p.returncode != 2:
+        if p.returncode != 0 and p.returncode != 3:
             return p.stderr or ("exit %d" % p.returncode)
         return None
 
@@ -234,10 +236,10 @@ class Run:
         if os.path.exists(op):
             os.remove(op)
         try:
-            p = subprocess.run([self.kdrive, "-in", cp, "-out", op], capture_output=True, text=True, timeout=300)
+            p = subprocess.run([self.kdrive, "-in", cp, "-out", op], capture_output=True, text=True, timeout=300, stdin=subprocess.DEVNULL)
         except subprocess.TimeoutExpired:
             return {"case": case, "panic": "hang: no result", "site": "", "obs": {}}
-        if p.returncode == 2:
+        if p.returncode == 3:
             raise Infra("kdrive: " + p.stderr[-1000:])
         if p.returncode != 0:
             return {"case": case, "panic": "crash: " + crash_message(p.stderr), "site": crash_site(p.stderr), "obs": {}}
@@ -408,6 +410,11 @@ def finish(run, flagged, level="model_checking", rule_text="", technique_note=""
         seen_sig.add(sig)
         confirmed.append((ev, rules))
     out_viol = 0
+    if os.environ.get("VERIF_DEBUG"):
+        import collections
+        cnt = collections.Counter((tuple(r), ev.get("site", ""), str(ev.get("panic", ""))[:80]) for ev, r in confirmed)
+        for k, v in cnt.most_common(40):
+            log("  summary", v, k)
     os.makedirs(os.path.join(VERIF, "replays"), exist_ok=True)
     printed_known = set()
     for (ev, rules) in confirmed:
